@@ -22,7 +22,6 @@ pub struct SingleSignature { pub party_id: String, pub signature: ProtocolSingle
 pub uninterp spec fn stm_sig_valid(s: &ProtocolSingleSignature, p: &Parameters, vk: &Vk, stake: Stake, avk: &Avk, msg: Seq<u8>) -> bool;  // mithril-stm SingleSignature::verify (C01)
 pub uninterp spec fn avk_of(c: &ProtocolClerk) -> Avk;
 pub uninterp spec fn registered_at(c: &ProtocolClerk, slot: SignerIndex) -> Option<(Vk, Stake)>;      // closed registration: slot -> (key, stake)
-pub uninterp spec fn slot_of_party(c: &ProtocolClerk, party_id: Seq<char>) -> Option<SignerIndex>;      // the slot of the key THIS party registered for the epoch
 pub uninterp spec fn msg_bytes(m: &Msg) -> Seq<u8>;
 
 impl SingleSignature {
@@ -54,7 +53,17 @@ impl ProtocolSingleSignature {
     { unimplemented!() }
 }
 
-pub struct MultiSigner { pub protocol_clerk: ProtocolClerk, pub protocol_parameters: Parameters }
+/// HashMap<PartyId, VerificationKeyForConcatenation>: the key each party registered (filled by SignerBuilder::new from the
+/// party id KeyRegWrapper::register returned and that signer's own key: C06 unit signer_builder)
+#[verifier::external_body] pub struct RegisteredKeys { _p: core::marker::PhantomData<u8> }
+pub uninterp spec fn key_of_party(m: &RegisteredKeys, party_id: Seq<char>) -> Option<Vk>;
+/// `map.get(&party_id) != Some(&vk)` (Option<&Vk> comparison of an opaque key type)
+#[verifier::external_body]
+fn party_key_differs(m: &RegisteredKeys, party_id: &String, vk: &Vk) -> (r: bool) ensures r == (key_of_party(m, party_id@) != Some(*vk)) { unimplemented!() }
+#[verifier::external_body]
+fn anyhow_error() -> StdError { unimplemented!() }
+
+pub struct MultiSigner { pub protocol_clerk: ProtocolClerk, pub protocol_parameters: Parameters, pub registered_verification_keys: RegisteredKeys }
 
 impl MultiSigner {
     //@extract file=mithril-common/src/protocol/multi_signer.rs fn=compute_aggregate_verification_key within="impl MultiSigner"
@@ -69,7 +78,13 @@ impl MultiSigner {
     //@ rewrite /StdResult<\(\)>/ => /Result<(), StdError>/
     //@ rewrite /(?s)\s*\.with_context\(\|\| format!\("Unregistered party: '\{\}'", single_signature\.party_id\)\)/ => //
     //@ rewrite /(?s)\s*\.with_context\(\|\| \{\s*format!\(\s*"Invalid signature for party: '\{\}'",\s*single_signature\.party_id\s*\)\s*\}\)/ => //
+    //@ rewrite? /self\.registered_verification_keys\.get\(&single_signature\.party_id\) != Some\(&vk\)/ => /party_key_differs(&self.registered_verification_keys, &single_signature.party_id, &vk)/
+    //@ rewrite? /(?s)return Err\(anyhow!\(.*?\)\);/ => /return Err(anyhow_error());/
     //@ spec ensures ret is Ok ==> ({
+    //@ spec     // THE OBLIGATION OF C16: the key registered at the slot the signature names is the key registered by the party the
+    //@ spec     // submission NAMES (finding F-C16-1 before the repair: party_id was only used in error text)
+    //@ spec     &&& registered_at(&self.protocol_clerk, single_signature.signature.signer_index) is Some
+    //@ spec     &&& key_of_party(&self.registered_verification_keys, single_signature.party_id@) == Some(registered_at(&self.protocol_clerk, single_signature.signature.signer_index)->Some_0.0)
     //@ spec     // the signature verifies, for this message, under the key and stake registered at the slot the signature names
     //@ spec     &&& registered_at(&self.protocol_clerk, single_signature.signature.signer_index) is Some
     //@ spec     &&& stm_sig_valid(&single_signature.signature, &self.protocol_parameters,
@@ -78,15 +93,6 @@ impl MultiSigner {
     //@ spec            &avk_of(&self.protocol_clerk), msg_bytes(message))
     //@ spec }),
     //@end
-}
-
-/// THE OBLIGATION OF C16: a signature is authenticated for the party it NAMES only if it verifies against the key that this
-/// very party registered, i.e. the slot it names is the slot of party_id. verify_single_signature never looks at party_id
-/// (it only appears in error text), so this cannot be established: KNOWN FINDING F-C16-1.
-fn c16_signature_attributed_to_named_party(ms: &MultiSigner, message: &Msg, single_signature: &SingleSignature) -> (r: Result<(), StdError>)
-    ensures r is Ok ==> slot_of_party(&ms.protocol_clerk, single_signature.party_id@) == Some(single_signature.signature.signer_index),
-{
-    ms.verify_single_signature(message, single_signature)
 }
 
 } // verus!
